@@ -626,7 +626,10 @@ void World::CheckCycles(const InvRecord& r, const std::set<std::string>& dd_at_s
       int m = manifest_producer(p);
       if (m >= 0) return m;
       int q = sc.Producer(p);   // an output only a dyndep file declares
-      if (level != 3 && q >= 0 && known.count(q) && (level == 1 || dd_certain(q))) return q;
+      // what ninja MAY come to know (level 1): a dyndep file produced mid-build is loaded for every
+      // statement bound to it, needed or not; what it MUST know: only for statements in its graph
+      if (level == 1 && q >= 0) return q;
+      if (level != 3 && q >= 0 && known.count(q) && dd_certain(q)) return q;
       return -1;
     };
     std::map<int, int> color;   // 1 on stack, 2 done
